@@ -31,8 +31,14 @@ theorem startX_eq (d : Deep) : startX d = start d := by
       rw [start_not_started d hs he]
       simp [startX, startF, execPlan, startPlan, Fld.get, Fld.put, primStep, noStartFaults, hs, he]
 
-/-- the translated `Deep.shutdown` is the specified one, for every state and fault assignment -/
-theorem shutdownX_eq (f : Faults) (d : Deep) : shutdownX f d = shutdown f d := by
+theorem buildFails_readable (f : Faults) (d : Deep) (b : Bool) (refs : List StepRef) (hr : Readable f d) :
+    buildFails f { d with everShut := b } refs = false := by
+  simp only [buildFails, Readable] at *
+  simp [hr]
+
+/-- the translated `Deep.shutdown` is the specified one, for every state and every fault assignment under which the
+    `shutdown` attribute of every loaded plugin can be read -/
+theorem shutdownX_eq (f : Faults) (d : Deep) (hr : Readable f d) : shutdownX f d = shutdown f d := by
   cases hs : d.started with
   | false =>
     rw [shutdown_not_started f d hs]
@@ -40,17 +46,76 @@ theorem shutdownX_eq (f : Faults) (d : Deep) : shutdownX f d = shutdown f d := b
   | true =>
     rw [shutdown_started f d hs]
     simp only [shutdownX, execPlan, shutdownPlan, Fld.get, hs, Fld.put, stepsOf, runLoop_all, bne_self_eq_false,
-      Bool.false_eq_true, if_false, List.append_nil, List.foldl_cons, Bool.false_and, primStep]
+      Bool.false_eq_true, if_false, List.append_nil, List.foldl_cons, Bool.false_and, primStep,
+      buildFails, (show d.plugins.any f.attrUnreadable = false from hr), Bool.and_false]
     rw [plugin_steps]
     simp [after, runStep, flushPending_isolated]
 
-theorem stepX_eq (d : Deep) (op : Op) : stepX d op = step d op := by
-  cases op <;> simp [stepX, step, startX_eq, shutdownX_eq]
+/-- no operation changes the list of loaded plugins -/
+theorem step_plugins (d : Deep) (op : Op) : (step d op).plugins = d.plugins := by
+  cases op with
+  | start =>
+    simp only [step]
+    cases hs : d.started with
+    | true => rw [start_started d hs]
+    | false =>
+      cases he : d.everShut with
+      | true => rw [start_refused d hs he]
+      | false => rw [start_not_started d hs he]
+  | shutdown f =>
+    simp only [step]
+    cases hs : d.started with
+    | false => rw [shutdown_not_started f d hs]
+    | true => rw [shutdown_started f d hs]
+  | newConfig cfg => rfl
+  | pollTick fl =>
+    simp only [step]
+    cases fl with
+    | none => rfl
+    | some e => cases e <;> simp only [pollTick] <;> (try split) <;> rfl
+  | hostSet s t => simp only [step, hostSet]; split <;> rfl
 
-/-- every history over the translated methods is the history of the specification machine -/
-theorem runX_eq (ops : List Op) (d : Deep) : runX ops d = run ops d := by
+/-- in a history, every shutdown's fault assignment leaves the `shutdown` attribute of the plugins `ps` readable -/
+def OpsReadable (ps : List Nat) (ops : List Op) : Prop := ∀ f, Op.shutdown f ∈ ops → ps.any f.attrUnreadable = false
+
+theorem stepX_eq (d : Deep) (op : Op) (hr : ∀ f, op = Op.shutdown f → Readable f d) : stepX d op = step d op := by
+  cases op with
+  | shutdown f => simp [stepX, step, shutdownX_eq f d (hr f rfl)]
+  | start => simp [stepX, step, startX_eq]
+  | newConfig cfg => rfl
+  | pollTick fl => rfl
+  | hostSet s t => rfl
+
+/-- every history over the translated methods is the history of the specification machine (plugins readable) -/
+theorem runX_eq (ops : List Op) (d : Deep) (hr : OpsReadable d.plugins ops) : runX ops d = run ops d := by
   induction ops generalizing d with
   | nil => rfl
-  | cons op ops ih => simp only [runX, run, List.foldl_cons] at *; rw [stepX_eq]; exact ih _
+  | cons op ops ih =>
+    simp only [runX, run, List.foldl_cons] at *
+    rw [stepX_eq d op (fun f hf => by subst hf; exact hr f (List.mem_cons_self ..))]
+    exact ih _ (by rw [step_plugins]; exact fun f hf => hr f (List.mem_cons_of_mem _ hf))
+
+/-! ### the effect trace -/
+
+theorem loopTrace_all (f : Faults) (ss : List Step) (d : Deep) : loopTrace true f ss d = ss.map PEv.step := by
+  induction ss generalizing d with
+  | nil => rfl
+  | cons s ss ih =>
+    simp only [loopTrace, Bool.true_or, Bool.not_true, Bool.and_false, Bool.false_eq_true, if_false, ih, List.map_cons]
+
+/-- `Deep.start` makes exactly the specified calls, in the specified order, in every state -/
+theorem startTrace_eq (d : Deep) : startTrace noStartFaults d = startSpecTrace d := by
+  cases hs : d.started <;> cases he : d.everShut <;>
+    simp [startTrace, startSpecTrace, tracePlan, startPlan, Fld.get, Fld.put, primStep, noStartFaults, hs, he]
+
+/-- `Deep.shutdown` attempts exactly the specified steps, in the specified order (plugins readable) -/
+theorem shutdownTrace_eq (f : Faults) (d : Deep) (hr : Readable f d) : shutdownTrace f d = shutdownSpecTrace d := by
+  cases hs : d.started with
+  | false => simp [shutdownTrace, shutdownSpecTrace, tracePlan, shutdownPlan, Fld.get, hs]
+  | true =>
+    simp only [shutdownTrace, shutdownSpecTrace, tracePlan, shutdownPlan, Fld.get, hs, Fld.put, stepsOf, runLoop_all,
+      loopTrace_all, bne_self_eq_false, Bool.false_eq_true, if_false, List.append_nil, Bool.false_and,
+      buildFails, (show d.plugins.any f.attrUnreadable = false from hr), Bool.and_false, Bool.not_true]
+    simp [Function.comp_def]
 
 end Lifecycle
